@@ -805,6 +805,30 @@ class StreamBed:
         w.settle()
         return r
 
+    # -- faults around an API operation ---------------------------------------
+    def refuse_next_transport_channel(self):
+        """The acceptor's device refuses the next L2CAP connection to the AVDTP PSM (the transport channel that follows an
+        accepted Open): restored right after the operation."""
+        from bumble import avdtp
+
+        mgr = self.w.devices[1].l2cap_channel_manager
+        server = mgr.servers.pop(avdtp.AVDTP_PSM, None)
+
+        def restore():
+            if server is not None:
+                mgr.servers[avdtp.AVDTP_PSM] = server
+
+        return restore
+
+    def drop_transport_channel(self):
+        """The initiator's transport (media) L2CAP channel is closed by itself, before any AVDTP Close / Abort: legal, only
+        unusual."""
+        ch = self.stream.rtp_channel
+        if ch is None:
+            return False
+        self.do(ch.disconnect())
+        return True
+
     # -- API mode -----------------------------------------------------------
     def api_op(self, op):
         s = self.stream
@@ -863,7 +887,55 @@ def run_stream(mode, seq):
     trace = []
     try:
         model = 'IDLE'
+        degraded = False  # a stream opened without its transport channel: what the acceptor then allows is its business
         for i, op in enumerate(seq):
+            fault = op.split('+')[0] if op.startswith(('nomedia+', 'rtpdrop+')) else None
+            if fault:
+                full, op = op, op.split('+', 1)[1]
+                before = (bed.initiator_state(), bed.acceptor_state())
+                restore = None
+                if fault == 'nomedia':
+                    restore = bed.refuse_next_transport_channel()
+                else:
+                    bed.drop_transport_channel()
+                status, info = bed.api_op(op)
+                if restore:
+                    restore()
+                ini, acc = bed.initiator_state(), bed.acceptor_state()
+                trace.append([full, status, ini, acc])
+                where = f'{mode} sequence {list(seq)} step {i} ({full} in {model})'
+                if status == 'hang':
+                    out.append(({'sub': sub, 'kind': 'procedure_never_completed', 'op': full, 'from': model}, f'{where}: never completed'))
+                    break
+                legal = (model, op) in table or op == 'abort'
+                if fault == 'rtpdrop':
+                    # the transport channel going first changes nothing about what Close / Abort / Start / Stop mean
+                    nxt = 'IDLE' if op == 'abort' else table.get((model, op), model)
+                    if legal and op in ('close', 'abort'):
+                        if status != 'ok' or (ini, acc) != (nxt, nxt) and not (op == 'abort' and acc == nxt):
+                            out.append(({'sub': sub, 'kind': 'close_after_transport_channel_went_first', 'op': op, 'from': model, 'initiator': ini, 'acceptor': acc},
+                                        f'{where}: the transport channel was closed first, then {op}: {status} {info or ""}; initiator {ini} acceptor {acc}, expected both {nxt}'))
+                            break
+                        model = nxt
+                        continue
+                    # any other operation after the channel loss: both ends must still agree
+                    degraded = True
+                    if status == 'ok' and legal:
+                        model = nxt
+                    if op != 'abort' and ini != acc:
+                        out.append(({'sub': sub, 'kind': 'states_disagree', 'op': full, 'initiator': ini, 'acceptor': acc}, f'{where}: initiator {ini} vs acceptor {acc}'))
+                        break
+                    model = acc
+                    continue
+                # nomedia: the operation may fail (an error is an error) but the two ends must stay in one state, from which
+                # the script goes on
+                degraded = True
+                if ini != acc:
+                    out.append(({'sub': sub, 'kind': 'states_disagree_after_transport_channel_refused', 'op': op, 'from': model, 'initiator': ini, 'acceptor': acc},
+                                f'{where}: the L2CAP transport channel was refused ({status} {info or ""}); initiator {ini} vs acceptor {acc}'))
+                    break
+                model = acc
+                continue
             veto = op.startswith('veto+')
             if veto:
                 # the acceptor's application refuses the next <op> command it is asked about (a LEGAL procedure refused by
@@ -895,6 +967,16 @@ def run_stream(mode, seq):
                                 f'{where}: acceptor refused ({info}) but states went {before} -> {(ini, acc)}'))
                     break
                 model = mid
+                continue
+            if degraded:
+                # only agreement is judged until both ends are back to IDLE
+                if op != 'abort' and ini != acc:
+                    out.append(({'sub': sub, 'kind': 'states_disagree', 'op': op, 'initiator': ini, 'acceptor': acc}, f'{where}: initiator {ini} vs acceptor {acc}'))
+                    break
+                model = acc
+                degraded = not (ini == acc == 'IDLE') and not (op == 'abort' and acc == 'IDLE')
+                if op == 'abort':
+                    break  # (the initiating Stream has no abort(): nothing further to compare)
                 continue
             if op == 'abort':
                 legal, nxt = True, 'IDLE'
@@ -1004,6 +1086,13 @@ def run(ctx: core.Context) -> int:
         for seq in stream_sequences([o for o in API_OPS if o != 'abort'], n, False):
             for i in range(len(seq)):
                 seqs.append(seq[:i] + ('veto+' + seq[i],) + seq[i + 1:])
+        # transport-channel faults: the L2CAP channel that follows Open refused; the channel closed before Close / Abort
+        for seq in stream_sequences(API_OPS, min(n, 4), True):
+            for i in range(len(seq)):
+                if seq[i] in ('open', 'start'):
+                    seqs.append(seq[:i] + ('nomedia+' + seq[i],) + seq[i + 1:])
+                if seq[i] in ('close', 'abort', 'stop', 'start') and any(o in ('open', 'start') for o in seq[:i]):
+                    seqs.append(seq[:i] + ('rtpdrop+' + seq[i],) + seq[i + 1:])
         st = ctx.sub('stream_veto')
         for r in core.pmap(w_stream, [('veto', p) for p in core.split(seqs, jobs * 4)], jobs):
             st.merge(r)
